@@ -303,8 +303,17 @@ BuildR(i, Hd, App, acc) == IF i = 0 THEN acc
 \*   "pip"    PointInPlane: plane fixed in body b1 (normal n, height h), point st of body b2:  perr = n . (p_S - p_B1o) - h
 \*   "cang"   ConstantAngle: axis a1 fixed in b1, axis a2 fixed in b2:                          perr = a1 . a2 - cosine
 \*   "cspeed" ConstantSpeed: speed k of mobilizer b1 held at s (nonholonomic):                 verr = u - s
-\* velocity and acceleration errors are the time derivatives, written out with the bodies' w, v, aw, a
-Eval(dyn, ud, F, q2, u2, tasks, cons) ==
+\*   "rod"    Rod: distance between station st of b1 and station st2 of b2 held at d: its errors need a square root,
+\*            r = |p|, perr = r - d, verr = (p . pdot) / r, aerr = (p . pddot + pdot . pdot) / r - (p . pdot)^2 / r^3;
+\*            the spec delivers the exact polynomial ingredients p.p, p.pdot, p.pddot + pdot.pdot in the perr / verr / aerr slots
+\* velocity and acceleration errors are the time derivatives, written out with the bodies' w, v, aw, a;
+\* felems / felems2: force elements with their DOCUMENTED laws (first parameter set; second set applied to the same State):
+\*   "gravity"  m g at every non-excluded body's mass centre, PE = - sum m g . p_com        "ugravity" the same, no exclusions
+\*   "cforce"   constant force f (in G) at a body station          "ctorque" constant torque (in G) on a body
+\*   "mcf"      constant force on one mobility                     "mls" -k (q - q0) on a translational coordinate, PE = k (q - q0)^2 / 2
+\*   "mld"      -c u on one mobility                               "gdamper" -c u on every mobility
+\* an element with on = 0 is disabled and contributes nothing
+Eval(dyn, ud, F, q2, u2, tasks, cons, felems, felems2) ==
   LET X == TLCEval(Poses)
       Vu == TLCEval(Vels(X, u, ZeroU))
       Bu == BodyV(X, Vu)
@@ -331,6 +340,52 @@ Eval(dyn, ud, F, q2, u2, tasks, cons) ==
       Hd == TLCEval([b \in 1..N |-> [f |-> FSa[b].f, t |-> VAdd(FSa[b].t, Cross(ComG(b, X), FSa[b].f))]])
       App == TLCEval([b \in 1..N |-> [f |-> Fb[b].f, t |-> VAdd(Fb[b].t, Cross(X[b].p, Fb[b].f))]])
       RO == TLCEval(BuildR(N, Hd, App, [b \in 1..N |-> WZero]))
+      \* ---- force elements
+      IV3(v) == VI(v[1], v[2], v[3])
+      ForceEval(FL) ==
+        LET NF == Len(FL)
+            On(e) == e.on = 1
+            Grav(e, b) == (e.type = "ugravity") \/ (e.type = "gravity" /\ e.ex[b] = 0)
+            BodyW(e, b) ==       \* the element's spatial force on body b at the body origin
+              IF ~On(e) THEN WZero
+              ELSE IF e.type \in {"gravity", "ugravity"} THEN
+                     (IF Grav(e, b) THEN LET f == VScale(Mass(b), IV3(e.g)) IN [t |-> Cross(ComOff(b, X), f), f |-> f] ELSE WZero)
+              ELSE IF e.type = "cforce" /\ e.b = b THEN [t |-> Cross(MV(X[b].R, IV3(e.st)), IV3(e.f)), f |-> IV3(e.f)]
+              ELSE IF e.type = "ctorque" /\ e.b = b THEN [t |-> IV3(e.f), f |-> VZero]
+              ELSE WZero
+            MobF(e, j) ==        \* the element's generalized force on the flattened mobility j
+              LET d == Dofs[j] IN
+              IF ~On(e) THEN Zero
+              ELSE IF e.type = "gdamper" THEN R(-(e.c * u[d[1]][d[2]]))
+              ELSE IF e.type \in {"mcf", "mls", "mld"} /\ e.b = d[1] /\ e.k = d[2] THEN
+                     (IF e.type = "mcf" THEN R(e.c) ELSE IF e.type = "mld" THEN R(-(e.c * u[d[1]][d[2]])) ELSE R(-(e.c * (q[d[1]][e.k].k - e.q0))))
+              ELSE Zero
+            PE2(e) ==            \* twice the potential energy
+              IF ~On(e) THEN Zero
+              ELSE IF e.type \in {"gravity", "ugravity"} THEN
+                     SumRS(TLCEval([b \in 1..N |-> IF Grav(e, b) THEN RMul(R(-2), RMul(Mass(b), Dot(IV3(e.g), ComG(b, X)))) ELSE Zero]), N)
+              ELSE IF e.type = "mls" THEN LET dq == q[e.b][e.k].k - e.q0 IN R(e.c * dq * dq)
+              ELSE Zero
+            DPE(e) ==            \* d/dt of the potential energy
+              IF ~On(e) THEN Zero
+              ELSE IF e.type \in {"gravity", "ugravity"} THEN
+                     SumRS(TLCEval([b \in 1..N |-> IF Grav(e, b) THEN RNeg(RMul(Mass(b), Dot(IV3(e.g), Bu[b].vc))) ELSE Zero]), N)
+              ELSE IF e.type = "mls" THEN R(e.c * (q[e.b][e.k].k - e.q0) * u[e.b][e.k])
+              ELSE Zero
+            Power(e) == RAdd(SumRS(TLCEval([b \in 1..N |-> LET W == BodyW(e, b) IN RAdd(Dot(W.t, Vu[b].w), Dot(W.f, Vu[b].v))]), N),
+                             SumRS(TLCEval([j \in 1..ND |-> RMul(MobF(e, j), uf[j])]), ND))
+            Cons(e) == e.type \in {"gravity", "ugravity", "mls"}
+            Diss(e) == e.type \in {"mld", "gdamper"}
+        IN [body |-> [b \in 1..N |-> LET W == [k \in 1..NF |-> BodyW(FL[k], b)] IN
+                                      [t |-> SumVS(TLCEval([k \in 1..NF |-> W[k].t]), NF), f |-> SumVS(TLCEval([k \in 1..NF |-> W[k].f]), NF)]],
+            mob |-> [j \in 1..ND |-> SumRS(TLCEval([k \in 1..NF |-> MobF(FL[k], j)]), NF)],
+            pe2 |-> SumRS(TLCEval([k \in 1..NF |-> PE2(FL[k])]), NF),
+            power |-> [k \in 1..NF |-> Power(FL[k])],
+            \* C12 on the spec itself: an element with a potential delivers power -dPE/dt; a damper never delivers positive power
+            powerIsMinusDPE |-> \A k \in 1..NF : Cons(FL[k]) => Power(FL[k]) = RNeg(DPE(FL[k])),
+            dampersDissipate |-> \A k \in 1..NF : Diss(FL[k]) => Power(FL[k]).n <= 0]
+      FZ1 == ForceEval(felems)
+      FZ2 == ForceEval(felems2)
       \* ---- constraints
       NC == Len(cons)
       BodyK(K, b) == IF b = 0 THEN GroundV ELSE K[b]
@@ -361,10 +416,20 @@ Eval(dyn, ud, F, q2, u2, tasks, cons) ==
                IN [perr |-> RSub(Dot(b, f), Red(c.cosn, c.cose)),
                    verr |-> RAdd(Dot(bd, f), Dot(b, fd)),
                    aerr |-> RAdd(RAdd(Dot(bdd, f), RMul(R(2), Dot(bd, fd))), Dot(b, fdd))]
+          [] c.type = "rod" ->
+               LET B1 == BodyK(K, c.b1)  B2 == BodyK(K, c.b2)
+                   r1 == MV(BodyR(c.b1), VI(c.st[1], c.st[2], c.st[3]))  r2 == MV(BodyR(c.b2), VI(c.st2[1], c.st2[2], c.st2[3]))
+                   p == VSub(VAdd(BodyP(c.b2), r2), VAdd(BodyP(c.b1), r1))
+                   pd == VSub(VAdd(B2.v, Cross(B2.w, r2)), VAdd(B1.v, Cross(B1.w, r1)))
+                   pdd == VSub(VAdd(B2.a, VAdd(Cross(B2.aw, r2), Cross(B2.w, Cross(B2.w, r2)))),
+                               VAdd(B1.a, VAdd(Cross(B1.aw, r1), Cross(B1.w, Cross(B1.w, r1)))))
+               IN [perr |-> Dot(p, p), verr |-> Dot(p, pd), aerr |-> RAdd(Dot(p, pdd), Dot(pd, pd))]
           [] c.type = "cspeed" ->
                [perr |-> Zero, verr |-> R(uu[c.b1][c.k] - c.s), aerr |-> R(udd[c.b1][c.k])]
       ConsAt0 == TLCEval([k \in 1..NC |-> ConsErr(cons[k], Vu, u, ZeroU)])          \* the state's errors; aerr for udot = 0
       ConsAtUd == TLCEval([k \in 1..NC |-> ConsErr(cons[k], Va, u, ud)])
+      \* the same configuration with only the speeds replaced by the second set (the real State is re-used after a u-only change)
+      ConsAtU2 == TLCEval([k \in 1..NC |-> ConsErr(cons[k], VelsQ(X, q, u2, ZeroU), u2, ZeroU)])
       \* G, one row per constraint: the velocity error is affine in u, its linear part column by column
       VerrZero == TLCEval([k \in 1..NC |-> ConsErr(cons[k], Vels(X, ZeroU, ZeroU), ZeroU, ZeroU).verr])
       G == TLCEval([k \in 1..NC |-> TLCEval([j \in 1..ND |->
@@ -400,7 +465,11 @@ Eval(dyn, ud, F, q2, u2, tasks, cons) ==
       reactF |-> IF dyn THEN [b \in 1..N |-> LET w == WShift(RO[b], X[b].pF) IN [t |-> VNeg(w.t), f |-> VNeg(w.f)]] ELSE <<>>,
       \* pose and velocity of M in F (expressed in F) for the coordinates q2 and speeds u2: what a mobilizer fitted to
       \* them must reproduce
-      cons |-> [k \in 1..NC |-> [perr |-> ConsAt0[k].perr, verr |-> ConsAt0[k].verr, aerr0 |-> ConsAt0[k].aerr, aerr |-> ConsAtUd[k].aerr]],
+      forces |-> [body |-> FZ1.body, mob |-> FZ1.mob, pe2 |-> FZ1.pe2, power |-> FZ1.power],
+      forces2 |-> [body |-> FZ2.body, mob |-> FZ2.mob, pe2 |-> FZ2.pe2, power |-> FZ2.power],
+      forceLaws |-> FZ1.powerIsMinusDPE /\ FZ1.dampersDissipate /\ FZ2.powerIsMinusDPE /\ FZ2.dampersDissipate,
+      cons |-> [k \in 1..NC |-> [perr |-> ConsAt0[k].perr, verr |-> ConsAt0[k].verr, aerr0 |-> ConsAt0[k].aerr, aerr |-> ConsAtUd[k].aerr,
+                                  verrU2 |-> ConsAtU2[k].verr, aerr0U2 |-> ConsAtU2[k].aerr]],
       G |-> G,
       \* the acceleration error is affine in udot with the same G:  aerr(ud) = aerr(0) + G ud   (identity of the spec)
       aerrAffine |-> \A k \in 1..NC : ConsAtUd[k].aerr = RAdd(ConsAt0[k].aerr, SumRS(TLCEval([j \in 1..ND |-> RMul(G[k][j], R(ud[Dofs[j][1]][Dofs[j][2]]))]), ND)),
